@@ -60,6 +60,7 @@ type Transport struct {
 	failAt      int // 1-based call index that fails (0 = none)
 	failErr     error
 	failSticky  bool
+	failPartial bool // the failing call reports that part of the buffer was written (n > 0 together with the error)
 	onWrite     func(rec *WriteRec)
 }
 
@@ -147,8 +148,12 @@ func (t *Transport) Write(p []byte) (int, error) {
 		rec := WriteRec{Seq: NextSeq(), T: Now(), Session: t.session, Data: append([]byte(nil), p...), Failed: true}
 		t.writes = append(t.writes, rec)
 		err := t.failErr
+		n := 0
+		if t.failPartial {
+			n = len(p) / 2
+		}
 		t.mu.Unlock()
-		return 0, err
+		return n, err
 	}
 	for (t.blockWrites || (t.blockFrom != 0 && call >= t.blockFrom)) && !t.closed {
 		t.blocked++
@@ -213,6 +218,13 @@ func (t *Transport) Blocked() int {
 func (t *Transport) FailWriteAt(k int, err error, sticky bool) {
 	t.mu.Lock()
 	t.failAt, t.failErr, t.failSticky = k, err, sticky
+	t.mu.Unlock()
+}
+
+// FailPartial makes the failing Write calls return n = len/2 together with the error.
+func (t *Transport) FailPartial(b bool) {
+	t.mu.Lock()
+	t.failPartial = b
 	t.mu.Unlock()
 }
 
